@@ -96,6 +96,16 @@ class C08(Property):
                            'sub_linear': None, 'jac': None,
                            'partials': rng.choice([None, 'dense'])},
                    'sparse_scaling': rng.randrange(10 ** 6)}
+        # family: matrix-free implicit components (apply_linear) with scaled outputs under solvers
+        # that call apply_linear: the callback must be handed physical values
+        for _ in range(6 if tier == 'quick' else 150):
+            yield {'gen_seed': rng.randrange(10 ** 9),
+                   'opts': {'safe_indices': True, 'scaling': True, 'array_scaling': True,
+                            'implicit': True, 'cycles': False, 'n_comps': (3, 6)},
+                   'cfg': {'mode': rng.choice(['fwd', 'rev']),
+                           'linear': rng.choice(['krylov', 'direct', 'lbgs', None]), 'nonlinear': None,
+                           'sub_linear': rng.choice([None, 'krylov', 'direct']), 'jac': None,
+                           'partials': rng.choice([None, 'dense']), 'implicit_matfree': True}}
         # family: residual scaling only (res_ref, no ref/ref0) and sub-groups that approximate their
         # own jacobian (semi-totals): the group-level linear operators must honour a scaling that
         # only the residual vector carries
@@ -164,7 +174,8 @@ class C08(Property):
 
     def _run(self, md, voi, cfg, want_scaled_vec):
         res = {}
-        p, info = gm.build_problem(md, cfg=cfg)
+        log = [] if cfg.get('implicit_matfree') else None
+        p, info = gm.build_problem(md, log=log, cfg=cfg)
         gm.add_voi(p, md, copy.deepcopy(voi))
         p.setup(mode=cfg['mode'], force_alloc_complex=True)
         gm.set_auto_ivc_values(p, md)
@@ -178,7 +189,25 @@ class C08(Property):
             for i in c['ins']:
                 nm = gm.comp_path(c) + '.' + i['name']
                 res['ins'][nm] = np.asarray(p.get_val(nm, from_src=False)).ravel().tolist()
+        if log is not None:
+            del log[:]
         res['J'] = np.atleast_2d(p.compute_totals(return_format='array')).tolist()
+        if log is not None:
+            # what the matrix-free implicit components were handed as nonlinear outputs / inputs
+            # while the derivatives were computed: largest deviation from the physical values
+            seen = {}
+            for ent in log:
+                if not ent[0].endswith(':apply_linear'):
+                    continue
+                path = ent[0].rsplit(':', 1)[0]
+                for kind, dct, ref in (('out', ent[1], res['outs']), ('in', ent[2], res['ins'])):
+                    for nm, val in dct.items():
+                        phys = np.asarray(ref[path + '.' + nm], dtype=float)
+                        dev = float(np.max(np.abs(np.real(val) - phys) / np.maximum(1.0, np.abs(phys)))) \
+                            if phys.size else 0.0
+                        key = path + '.' + nm
+                        seen[key] = max(seen.get(key, 0.0), dev)
+            res['mf_seen_dev'] = seen
         if want_scaled_vec:
             sv = {}
             with p.model._scaled_context_all():
@@ -237,6 +266,13 @@ class C08(Property):
                 if not self._close(impl['scaled'][kind][k], v):
                     return {'what': 'physical %s differ between scaled and unscaled model' % kind,
                             'var': k, 'scaled': impl['scaled'][kind][k], 'plain': v}
+        # user code is handed physical values whatever the solver scaling is
+        for key in ('scaled', 'plain'):
+            for nm, dev in (impl[key].get('mf_seen_dev') or {}).items():
+                if dev > 1e-9:
+                    return {'what': 'apply_linear of a matrix-free implicit component was handed '
+                                    'non-physical (scaled) nonlinear values', 'var': nm,
+                            'model': key, 'rel_dev': dev}
         # derivative comparisons: what the linear solves can deliver is bounded by cond x eps of the
         # (physical) linearised system; numerically singular systems are not compared
         cond = gm.system_cond(md, ('c08', case['gen_seed']))
@@ -264,6 +300,10 @@ class C08(Property):
         md, voi = self._md(case)
         cfg = case['cfg']
         b = ['solver_reported_failure' if impl.get('error') == 'AnalysisError' else 'impl_error' if 'error' in impl else 'impl_ok', 'cyclic' if md.get('cyclic') else 'acyclic']
+        if impl.get('scaled', {}).get('mf_seen_dev'):
+            b.append('matrix_free_implicit_apply_linear_probed')
+        if case['cfg'].get('sub_approx'):
+            b.append('semi_total_groups')
         for k in ('mode', 'linear', 'nonlinear', 'jac', 'partials'):
             b.append('%s=%s' % (k, cfg[k]))
         for c in md['comps']:
